@@ -10,11 +10,14 @@
        list for EVERY partition of the rows into consecutive chunks, although each chunk threads one private
        deep copy of the learning policy through its rows (the proof shows that what a row leaves behind in that
        copy never reaches the next row's answer: fit forgets, and Thompson's stored sample is never read).
+     * the same for Radius / KNearest / LSHNearest over LinGreedy or LinUCB (the worker's copy keeps only private generator
+       copies, which these two policies never read: LinForget + LinSim), and for Clusters over every learning policy except
+       LinTS (the per-cluster policies are only queried; a query leaves nothing behind that a later query reads);
     ..._partial: what the model cannot exhibit is named in DESIGN.md: OS scheduling inside joblib, process
     boundaries, and the completion order of the shared-memory fit tasks (checked by permuting the tasks on the
     implementation). TreeBandit (finding D7) and LinTS under a neighbourhood (finding D8) are refuted on the code. *)
-From Coq Require Import List ZArith Bool Arith QArith Qcanon.
-From MW Require Import Num Assoc AssocFacts Rng Par CF CFInv CFClean CFForget CFSpec Matrix Lin Warm WarmInv Nbr NbrFacts NbrIndep Clu Tree Mab FacadeCF FacadeArms NumLaws QcInst.
+From Coq Require Import List ZArith Bool Arith QArith Qcanon Permutation.
+From MW Require Import Num Assoc AssocFacts Rng Par CF CFInv CFClean CFForget CFSpec Matrix Lin Warm WarmInv Nbr NbrFacts NbrIndep LshFacts Clu Tree CellFacts Mab FacadeCF FacadeArms MoreFacts NumLaws CFAlg Sim Extra QcInst OrderFacts ExpIrrel LinInv FacadeLin LpInv NbrInv CluTreeInv FacadeAll ToyFacts C09All C10All LinForget LinSim MatrixFacts LinSpec NbrIndepGen CluIndep.
 Import ListNotations.
 
 Theorem C05_effective_jobs_in_range :
@@ -63,6 +66,36 @@ Theorem C05_neighbourhood_predict_independent_of_partition_partial :
   nbr_predict N aeqb RG s g cx orcs sizes p = nbr_predict N aeqb RG s g cx orcs [length cx] p.
 Proof. exact @nbr_predict_partition_independent. Qed.
 Print Assumptions C05_neighbourhood_predict_independent_of_partition_partial.
+
+Theorem C05_neighbourhood_over_lingreedy_linucb_independent_of_partition :
+  forall (R A G : Type) (N : Num R) (aeqb : A -> A -> bool) (RG : RngOps R G),
+  (forall x y : A, aeqb x y = true <-> x = y) ->
+  rng_lengths_ok RG ->
+  forall (s : (@nbr R A G)) (t : (@lin R A G)) (g : G) (cx : list (list R)) (orcs : list (list nat)) 
+    (sizes : list nat) (p : bool),
+  n_lp s = LLin t ->
+  lin_keys_ok t ->
+  l_kind t <> RTs ->
+  (forall (g0 : G) (high : Z) (size : nat), length (fst (draw_z RG g0 (RqRandint high size))) = size) ->
+  sum_list sizes = length cx ->
+  nbr_predict N aeqb RG s g cx orcs sizes p = nbr_predict N aeqb RG s g cx orcs [length cx] p.
+Proof. exact @nbr_predict_partition_independent_linear. Qed.
+Print Assumptions C05_neighbourhood_over_lingreedy_linucb_independent_of_partition.
+
+Theorem C05_clusters_predict_independent_of_partition :
+  forall (R A G : Type) (N : Num R) (aeqb : A -> A -> bool) (RG : RngOps R G),
+  (forall x y : A, aeqb x y = true <-> x = y) ->
+  rng_lengths_ok RG ->
+  forall (s : (@clu R A G)) (g : G) (cx : list (list R)) (assign sizes : list nat) (p : bool),
+  clu_inv s ->
+  Forall no_lints (k_lps s) ->
+  (forall (g0 : G) (high : Z) (size : nat), length (fst (draw_z RG g0 (RqRandint high size))) = size) ->
+  length assign = length cx ->
+  Forall (fun c : nat => (c < length (k_lps s))%nat) assign ->
+  sum_list sizes = length cx ->
+  clu_predict N aeqb RG s g cx assign sizes p = clu_predict N aeqb RG s g cx assign [length cx] p.
+Proof. exact @clu_predict_partition_independent. Qed.
+Print Assumptions C05_clusters_predict_independent_of_partition.
 
 Example C05_partition_example : partition_sizes 7 3 = [3; 2; 2]%nat /\ starts (partition_sizes 7 3) = [0; 3; 5; 7]%nat.
 Proof. split; reflexivity. Qed.
